@@ -1206,7 +1206,8 @@ class FullExecutor(Executor):
             # loop body does not write anything the generator reads (its evaluation is interleaved with the body)
             gnode = src.o[1]
             written = self.modified_in(s.body)[0] | {n.id for n in ast.walk(s.target) if isinstance(n, ast.Name)}
-            read = {n.id for n in ast.walk(gnode) if isinstance(n, ast.Name)}
+            own = {n.id for g in gnode.generators for n in ast.walk(g.target) if isinstance(n, ast.Name)}
+            read = {n.id for n in ast.walk(gnode) if isinstance(n, ast.Name)} - own
             if (written & read) or self.modified_in(s.body)[1]:
                 raise Unsupported("for over a generator expression whose inputs the loop body may write")
             src = self.comprehension(st, ast.ListComp(elt=gnode.elt, generators=gnode.generators))
